@@ -271,6 +271,19 @@ def phi_2D_to_3D_split_1(xx, phi_2D, deme_ids=None):
 
     return phi_2D_to_3D_admix(phi_2D,1,xx,xx,xx, deme_ids)
 
+def _check_admix_proportions(*fs):
+    """
+    Raise a ValueError if admixture proportions sum to more than one.
+
+    The proportions are checked as the caller passed them. (The pulse
+    functions re-order them, and insert 1-sum(fs), before handing them to the
+    *_pop_admixture_intermediates helpers, so a check on those re-ordered
+    values does not constrain their sum.)
+    """
+    if sum(fs) > 1:
+        raise ValueError('Admixture proportions (%s) are non-sensible: they '
+                         'sum to more than 1.' % ', '.join('%f' % f for f in fs))
+
 def _admixture_intermediates(phi, ad_z, zz):
     # Find where those z values map to in the zz array.
     # Note that zz[upper_z[ii,jj]] >= ad_z[ii,jj]
@@ -326,9 +339,6 @@ def _three_pop_admixture_intermediates(phi_3D, f1,f2, xx,yy,zz,ww):
     """
     # For each point x,y,z in phi, this is the corresponding frequency w that
     # SNPs with frequency x,y,z in populations 1,2,3 would map to.
-    if f1 + f2 > 1:
-        raise ValueError('Admixture proportions (f1=%f, f2 = %f) are '
-                         'non-sensible.' % (f1, f2))
     ad_w = f1*xx[:,nuax,nuax] + f2*yy[nuax,:,nuax] + (1-f1-f2)*zz[nuax,nuax,:]
 
     lower_w_index, upper_w_index, frac_lower, frac_upper, norm \
@@ -344,9 +354,6 @@ def _four_pop_admixture_intermediates(phi_4D, f1,f2,f3, xx,yy,zz,aa,bb):
     """
     # For each point x,y,z,a in phi, this is the corresponding frequency b that
     # SNPs with frequency x,y,z,a in populations 1,2,3,4 would map to.
-    if f1 + f2 + f3> 1:
-        raise ValueError('Admixture proportions (f1=%f, f2 = %f, f3=%f) are '
-                         'non-sensible.' % (f1, f2, f3))
     ad_w = f1*xx[:,nuax,nuax,nuax] + f2*yy[nuax,:,nuax,nuax] + f3*zz[nuax,nuax,:,nuax]\
         + (1-f1-f2-f3)*aa[nuax,nuax,nuax,:]
 
@@ -363,9 +370,6 @@ def _five_pop_admixture_intermediates(phi_5D, f1,f2,f3,f4, xx,yy,zz,aa,bb,cc):
     """
     # For each point x,y,z,a,b in phi, this is the corresponding frequency c that
     # SNPs with frequency x,y,z,a,b in populations 1,2,3,4,5 would map to.
-    if f1 + f2 + f3 + f4 > 1:
-        raise ValueError('Admixture proportions (f1=%f, f2 = %f, f3=%f, f4=%f) are '
-                         'non-sensible.' % (f1, f2, f3,  f4))
     ad_w = f1*xx[:,nuax,nuax,nuax,nuax] + f2*yy[nuax,:,nuax,nuax,nuax] + f3*zz[nuax,nuax,:,nuax,nuax]\
         + f4*aa[nuax,nuax,nuax,:,nuax] + (1-f1-f2-f3-f4)*bb[nuax,nuax,nuax,nuax,:]
 
@@ -393,6 +397,7 @@ def phi_2D_to_3D_admix(phi, f1, xx,yy,zz, deme_ids=None):
     Returns:
         phi_3D (array): A new three-dimensional phi array.
     """
+    _check_admix_proportions(f1)
     Demes.cache.append(Demes.Split(proportions=[f1, 1-f1], deme_ids=deme_ids))
 
     lower_z_index, upper_z_index, frac_lower, frac_upper, norm \
@@ -435,6 +440,7 @@ def phi_3D_to_4D(phi, f1,f2, xx,yy,zz,aa, deme_ids=None):
     Returns:
         phi_4D (array): A new four-dimensional phi array.
     """
+    _check_admix_proportions(f1, f2)
     Demes.cache.append(Demes.Split(proportions=[f1, f2, 1-f1-f2], deme_ids=deme_ids))
 
     lower_z_index, upper_z_index, frac_lower, frac_upper, norm \
@@ -478,6 +484,7 @@ def phi_4D_to_5D(phi, f1,f2,f3, xx,yy,zz,aa,bb, deme_ids=None):
     Returns:
         phi_5D (array): A new five-dimensional phi array.
     """
+    _check_admix_proportions(f1, f2, f3)
     Demes.cache.append(Demes.Split(proportions=[f1, f2, f3, 1-f1-f2-f3], deme_ids=deme_ids))
 
     lower_z_index, upper_z_index, frac_lower, frac_upper, norm \
@@ -516,6 +523,7 @@ def phi_2D_admix_1_into_2(phi, f, xx,yy):
     Returns:
         phi (array): The updated phi array.
     """
+    _check_admix_proportions(f)
     # This is just like the the split_admix situation, but we're splitting into
     # a population with zz=yy. We could do this by creating a xx by yy by yy
     # array, then integrating out the second population. That's a big waste of
@@ -557,6 +565,7 @@ def phi_2D_admix_2_into_1(phi, f, xx,yy):
     Returns:
         phi (array): The updated phi array.
     """
+    _check_admix_proportions(f)
     # Note that it's 1-f here since f now denotes the fraction coming from
     # population 2.
     Demes.cache.append(Demes.Pulse(sources=[2], dest=1, proportions=[f]))
@@ -592,6 +601,7 @@ def phi_3D_admix_1_and_2_into_3(phi, f1,f2, xx,yy,zz):
     Returns:
         phi (array): The updated phi array.
     """
+    _check_admix_proportions(f1, f2)
     Demes.cache.append(Demes.Pulse(sources=[1,2], dest=3, proportions=[f1,f2]))
     lower_w_index, upper_w_index, frac_lower, frac_upper, norm \
             = _three_pop_admixture_intermediates(phi, f1,f2, xx,yy,zz, zz)
@@ -629,6 +639,7 @@ def phi_3D_admix_1_and_3_into_2(phi, f1,f3, xx,yy,zz):
     Returns:
         phi (array): The updated phi array.
     """
+    _check_admix_proportions(f1, f3)
     Demes.cache.append(Demes.Pulse(sources=[1,3], dest=2, proportions=[f1,f3]))
     lower_w_index, upper_w_index, frac_lower, frac_upper, norm \
             = _three_pop_admixture_intermediates(phi, f1,1-f1-f3, xx,yy,zz, yy)
@@ -666,6 +677,7 @@ def phi_3D_admix_2_and_3_into_1(phi, f2,f3, xx,yy,zz):
     Returns:
         phi (array): The updated phi array.
     """
+    _check_admix_proportions(f2, f3)
     Demes.cache.append(Demes.Pulse(sources=[2,3], dest=1, proportions=[f2,f3]))
     lower_w_index, upper_w_index, frac_lower, frac_upper, norm \
             = _three_pop_admixture_intermediates(phi, 1-f2-f3,f2, xx,yy,zz, xx)
@@ -705,6 +717,7 @@ def phi_4D_admix_into_1(phi, f2,f3,f4, xx,yy,zz,aa):
     Returns:
         phi (array): The updated phi array.
     """
+    _check_admix_proportions(f2, f3, f4)
     Demes.cache.append(Demes.Pulse(sources=[2,3,4], dest=1, proportions=[f2,f3,f4]))
     lower_w_index, upper_w_index, frac_lower, frac_upper, norm \
             = _four_pop_admixture_intermediates(phi, 1-f2-f3-f4,f2,f3, xx,yy,zz,aa, xx)
@@ -745,6 +758,7 @@ def phi_4D_admix_into_4(phi, f1,f2,f3, xx,yy,zz,aa):
     Returns:
         phi (array): The updated phi array.
     """
+    _check_admix_proportions(f1, f2, f3)
     Demes.cache.append(Demes.Pulse(sources=[1,2,3], dest=1, proportions=[f1, f2, f3]))
     lower_w_index, upper_w_index, frac_lower, frac_upper, norm \
             = _four_pop_admixture_intermediates(phi, f1,f2,f3, xx,yy,zz,aa, yy)
@@ -783,6 +797,7 @@ def phi_4D_admix_into_3(phi, f1,f2,f4, xx,yy,zz,aa):
     Returns:
         phi (array): The updated phi array.
     """
+    _check_admix_proportions(f1, f2, f4)
     Demes.cache.append(Demes.Pulse(sources=[1,2,4], dest=3, proportions=[f1, f2, f4]))
     lower_w_index, upper_w_index, frac_lower, frac_upper, norm \
             = _four_pop_admixture_intermediates(phi, f1,f2,1-f1-f2-f4, xx,yy,zz,aa, yy)
@@ -821,6 +836,7 @@ def phi_4D_admix_into_2(phi, f1,f3,f4, xx,yy,zz,aa):
     Returns:
         phi (array): The updated phi array.
     """
+    _check_admix_proportions(f1, f3, f4)
     Demes.cache.append(Demes.Pulse(sources=[1,3,4], dest=2, proportions=[f1, f3, f4]))
     lower_w_index, upper_w_index, frac_lower, frac_upper, norm \
             = _four_pop_admixture_intermediates(phi, f1,1-f1-f3-f4,f3, xx,yy,zz,aa, yy)
@@ -861,6 +877,7 @@ def phi_5D_admix_into_1(phi, f2,f3,f4,f5, xx,yy,zz,aa,bb):
     Returns:
         phi (array): The updated phi array.
     """
+    _check_admix_proportions(f2, f3, f4, f5)
     lower_w_index, upper_w_index, frac_lower, frac_upper, norm \
             = _five_pop_admixture_intermediates(phi, 1-f2-f3-f4-f5,f2,f3,f4, xx,yy,zz,aa,bb, xx)
 
@@ -901,6 +918,7 @@ def phi_5D_admix_into_2(phi, f1,f3,f4,f5, xx,yy,zz,aa,bb):
     Returns:
         phi (array): The updated phi array.
     """
+    _check_admix_proportions(f1, f3, f4, f5)
     lower_w_index, upper_w_index, frac_lower, frac_upper, norm \
             = _five_pop_admixture_intermediates(phi, f1, 1-f1-f3-f4-f5,f3,f4, xx,yy,zz,aa,bb, xx)
 
@@ -941,6 +959,7 @@ def phi_5D_admix_into_3(phi, f1,f2,f4,f5, xx,yy,zz,aa,bb):
     Returns:
         phi (array): The updated phi array.
     """
+    _check_admix_proportions(f1, f2, f4, f5)
     lower_w_index, upper_w_index, frac_lower, frac_upper, norm \
             = _five_pop_admixture_intermediates(phi, f1, f2, 1-f1-f2-f4-f5,f4, xx,yy,zz,aa,bb, xx)
 
@@ -981,6 +1000,7 @@ def phi_5D_admix_into_4(phi, f1,f2,f3,f5, xx,yy,zz,aa,bb):
     Returns:
         phi (array): The updated phi array.
     """
+    _check_admix_proportions(f1, f2, f3, f5)
     lower_w_index, upper_w_index, frac_lower, frac_upper, norm \
             = _five_pop_admixture_intermediates(phi, f1, f2, f3, 1-f1-f2-f3-f5, xx,yy,zz,aa,bb, xx)
 
@@ -1021,6 +1041,7 @@ def phi_5D_admix_into_5(phi, f1,f2,f3,f4, xx,yy,zz,aa,bb):
     Returns:
         phi (array): The updated phi array.
     """
+    _check_admix_proportions(f1, f2, f3, f4)
     lower_w_index, upper_w_index, frac_lower, frac_upper, norm \
             = _five_pop_admixture_intermediates(phi, f1, f2, f3, f4, xx,yy,zz,aa,bb, xx)
 
